@@ -165,6 +165,61 @@ func init() {
 		// introduced with vsym.PEMOf
 		return Tuple{NilPtr{}, data}
 	}
+	// vsym.KeyPEM(kind): PEM text of a PKCS#8 private key of the given kind (0 RSA, 1 ECDSA, 2 Ed25519,
+	// 3 X25519), 4: a PEM block holding bytes that are not PKCS#8.  crypto/x509.ParsePKCS8PrivateKey is an
+	// environment stub on such data: it returns a key of the documented type for the kind, or an error.
+	intrinsics[vsymPath+".KeyPEM"] = func(fr *frame, a []Value) Value {
+		e := fr.e
+		kind := concInt(a[0])
+		e.path.uniq++
+		der := e.symBytes(fmt.Sprintf("keyder#%d", e.path.uniq), e.tb.I64(8), 8)
+		e.path.inputs = e.path.inputs[:len(e.path.inputs)-1]
+		txt := e.symBytes(fmt.Sprintf("keypem#%d", e.path.uniq), e.tb.I64(64), 64)
+		e.path.inputs = e.path.inputs[:len(e.path.inputs)-1]
+		if e.path.pemOf == nil {
+			e.path.pemOf = map[*ByteObj]SliceVal{}
+		}
+		if e.path.keyKind == nil {
+			e.path.keyKind = map[*ByteObj]int64{}
+		}
+		e.path.pemOf[txt.Obj] = der
+		e.path.keyKind[der.Obj] = kind
+		return txt
+	}
+	intrinsics["crypto/x509.ParsePKCS8PrivateKey"] = func(fr *frame, a []Value) Value {
+		e := fr.e
+		der := a[0].(SliceVal)
+		fail := func() Value { return Tuple{Iface{}, e.newError("x509: failed to parse private key (model)")} }
+		if der.Obj == nil {
+			return fail()
+		}
+		kind, ok := e.path.keyKind[der.Obj]
+		if !ok {
+			if _, conc := e.concBytes(der); conc {
+				return fail() // concrete garbage in the harnesses; real keys come through vsym.KeyPEM
+			}
+			e.unsupported("x509.ParsePKCS8PrivateKey on symbolic data not made by vsym.KeyPEM")
+		}
+		ptrTo := func(pkg, name string) Value {
+			T := e.namedType(pkg, name)
+			v := e.zero(T)
+			return Iface{T: types.NewPointer(T), V: &v}
+		}
+		switch kind {
+		case 0:
+			return Tuple{ptrTo("crypto/rsa", "PrivateKey"), Iface{}}
+		case 1:
+			return Tuple{ptrTo("crypto/ecdsa", "PrivateKey"), Iface{}}
+		case 2:
+			T := e.namedType("crypto/ed25519", "PrivateKey")
+			kb := e.symBytes("ed25519key", e.tb.I64(64), 64)
+			e.path.inputs = e.path.inputs[:len(e.path.inputs)-1]
+			return Tuple{Iface{T: T, V: kb}, Iface{}}
+		case 3:
+			return Tuple{ptrTo("crypto/ecdh", "PrivateKey"), Iface{}}
+		}
+		return fail()
+	}
 	intrinsics[vsymPath+".PEMOf"] = func(fr *frame, a []Value) Value {
 		e := fr.e
 		der := a[0].(SliceVal)
